@@ -109,17 +109,7 @@ func (d *DNSDiscovery) lookup() {
 
 	d.mu.Lock()
 	for _, ch := range d.chans {
-		ch := ch
-		go func() {
-			defer func() {
-				recover()
-			}()
-			select {
-			case ch <- pairs:
-			case <-time.After(time.Minute):
-				log.Warn("chan is full and new change has been dropped")
-			}
-		}()
+		notifyWatcher(ch, pairs)
 	}
 	d.mu.Unlock()
 }
